@@ -58,6 +58,9 @@ var c13Faults = []c13Fault{
 	{"unknown-component", `@component("nope")`, 0, true, "component"},
 	{"each-over-non-array", "@each(v in 5)x@end", 0, false, ""},
 	{"modulo-by-zero", "{{ 5 % 0 }}", 0, false, ""},
+	// faults of a slot passed to a component (the component file comp9 has several lines of its own)
+	{"undefined-slot", `@component("comp9")@slot("zz")x@end@end`, 0, true, "slot"},
+	{"slot-passed-twice", `@component("comp9")@slot("n")x@end@slot("n")y@end@end`, 0, true, "slot"},
 }
 
 func c13Build(cs c13Case) (src string, line int) {
@@ -98,6 +101,9 @@ func c13Check(cs c13Case) (ok bool, sig, expected, observed string) {
 		case 1:
 			t.Files["index.tw"] = src
 			wantPath = t.abs("index.tw")
+			if f.tree == "slot" {
+				t.Files["comp9.tw"] = "1\n2\n3\n4\n5\n6\n7\n8\n<c>@slot(\"n\")</c>"
+			}
 			if f.tree == "insert" {
 				// an insert needs a layout: the page uses one (on its last line, so the fault's line is unchanged)
 				t.Files["index.tw"] = src + `@use("lay")`
@@ -202,7 +208,7 @@ func c13Run(c *Ctx) {
 						if f.tree != "" && where != 1 {
 							continue
 						}
-						if f.tree == "insert" && wrap != 0 {
+						if (f.tree == "insert" || f.tree == "slot") && wrap != 0 {
 							continue
 						}
 						if where == 4 && (f.load || wrap != 0) && k > 1 {
